@@ -1,7 +1,7 @@
 #!/bin/bash
 # run_all.sh [tier]: every claimed property's check in sequence; prints one line per property
 T=${1:-quick}
-cd /verif
+cd "$(dirname "$0")/.."
 for P in $(python3 -c "import json; print(' '.join(c['property_id'] for c in json.load(open('MANIFEST.json'))['checks']))"); do
   S=$(date +%s); ./check $P --tier $T > /tmp/runall_$P.out 2>&1; RC=$?; E=$(date +%s)
   echo "$P exit=$RC $((E-S))s violations=$(grep -c '^VIOLATION' /tmp/runall_$P.out) known=$(grep -c '^KNOWN-FINDING' /tmp/runall_$P.out)"
